@@ -106,6 +106,18 @@ def stopped_at(pkt, out, info):
     return "after-last-item"
 
 
+def stopped_on_dontcare(pkt, out):
+    """the library raised while decoding a field whose value the model does not pin down (e.g. float overflow)"""
+    for n, v in out.items:
+        if n not in pkt:
+            return bool(v.dontcare)
+    return False
+
+
+def has_dontcare(out):
+    return any(v.dontcare for _, v in out.items)
+
+
 def judge_single(ctx, info: DocInfo, raw: bytes, step: Step, pkt, out: ref.Outcome, strict_views=True):
     """Compare one parse_ccsds_packet execution with the model outcome. Returns list of (mechanism, message)."""
     from space_packet_parser import exceptions as X
@@ -117,6 +129,9 @@ def judge_single(ctx, info: DocInfo, raw: bytes, step: Step, pkt, out: ref.Outco
     ctx.count(f"outcome.{out.status}")
     if out.status == "ok":
         if step.exc is not None:
+            if stopped_on_dontcare(pkt, out):
+                ctx.count("outcome.exception-on-dontcare-field")
+                return probs
             probs.append((f"exception/{type(step.exc).__name__}/{stopped_at(pkt, out, info)}",
                           f"library raised {type(step.exc).__name__}: {step.exc} ; model decodes {len(out.items)} items"))
             return probs
@@ -136,6 +151,8 @@ def judge_single(ctx, info: DocInfo, raw: bytes, step: Step, pkt, out: ref.Outco
             if step.exc is None:
                 probs.append((f"unrecognized/returned-packet/{out.unrec_kind}",
                               f"model: {out.unrec_kind} at {out.path[-1]}; library returned a packet with {len(step.value)} items"))
+            elif stopped_on_dontcare(pkt, out):
+                ctx.count("outcome.exception-on-dontcare-field")
             else:
                 probs.append((f"exception/{type(step.exc).__name__}/{stopped_at(pkt, out, info)}",
                               f"model: unrecognized ({out.unrec_kind}) after {len(out.items)} items; library raised {step.exc!r}"))
